@@ -657,7 +657,17 @@ var rR23 = RuleRef{Name: "R23", Doc: "single path into the state machine in clus
 		c.Undecided("R23", "the cluster connection handler (the one that sends RaftProposals)")
 		return
 	}
-	of := c.orderFlow(hc, nil, true, "T|cmp:*")
+	of := c.orderFlow(hc, nil, true, "T|cmp:*", "T|call:*")
+	// boolean predicates that answer true for the configuration-change command and for nothing else they test
+	confPred := map[string]bool{}
+	for _, fn := range helperScope(hc, 2) {
+		cs := predicateConsts(fn)
+		if len(cs) == 1 && cs[0] == "rconf" {
+			if v, known := predicateTrue(fn, "rconf"); known && v {
+				confPred["T|call:"+fn.Name()] = true
+			}
+		}
+	}
 	nd := 0
 	for _, b := range hc.Blocks {
 		for _, in := range b.Instrs {
@@ -682,6 +692,9 @@ var rR23 = RuleRef{Name: "R23", Doc: "single path into the state machine in clus
 				found := false
 				for f := range st {
 					if strings.HasPrefix(f, "T|cmp:") && strings.Contains(f, "rconf") && strings.Contains(f, "==") {
+						found = true
+					}
+					if confPred[f] {
 						found = true
 					}
 				}
@@ -765,36 +778,10 @@ var rR20s = RuleRef{Name: "R20s", Doc: "database selection: the selection store 
 			ln := p.lenOf(ia.X)
 			inRange := p.ProveLE(lt{"0", 0}, idx, 0, st) && p.ProveLE(idx, ln, -1, st)
 			c.Add("R20s", fnName(sel), "selection store dominated by 0 <= idx < len(DBs)", st.Pos(), inRange, "index "+canon(ia.Index))
-			// exactness: some dominating rejection compares idx with exactly len(DBs) (>=) and with 0 (<)
-			exactHi, exactLo := false, false
-			for d := b; d != nil; d = d.Idom() {
-				id := d.Idom()
-				if id == nil || len(id.Instrs) == 0 {
-					continue
-				}
-				iff, isIf := id.Instrs[len(id.Instrs)-1].(*ssa.If)
-				if !isIf {
-					continue
-				}
-				bo, isB := iff.Cond.(*ssa.BinOp)
-				if !isB {
-					continue
-				}
-				x, y := p.lin(bo.X), p.lin(bo.Y)
-				onFalse := id.Succs[1] == d
-				if !onFalse {
-					continue
-				}
-				// idx >= len  /  len <= idx
-				if (bo.Op == token.GEQ && x == idx && y == ln) || (bo.Op == token.LEQ && y == idx && x == ln) ||
-					(bo.Op == token.GTR && x == idx && y.n == ln.n && y.k == ln.k-1) {
-					exactHi = true
-				}
-				if (bo.Op == token.LSS && x == idx && y == (lt{"0", 0})) || (bo.Op == token.GTR && y == idx && x == (lt{"0", 0})) ||
-					(bo.Op == token.LEQ && x == idx && y == (lt{"0", -1})) {
-					exactLo = true
-				}
-			}
+			// exactness: what is known about idx at the store is no more than 0 <= idx <= len-1 (a test that rejects a
+			// configured index would make a tighter bound provable here)
+			exactHi := !p.ProveLE(idx, ln, -2, st)
+			exactLo := !p.ProveLE(lt{"0", 0}, idx, -1, st)
 			c.Add("R20s", fnName(sel), "the range test rejects exactly idx >= len(DBs) and idx < 0", st.Pos(), exactHi && exactLo, fmt.Sprintf("upper test exact=%v lower test exact=%v", exactHi, exactLo))
 		}
 	}
